@@ -335,3 +335,52 @@ sub('algorithm/svd/svd.go','''      for k := p; k < n-q-1; k++ {
         if B.At(k,k).GetFloat64() == 0.0 {''','''      lastRow := n-q-1
       for k := p; k < lastRow; k++ {
         if B.At(k,k).GetFloat64() == 0.0 {''')
+# --- C13: behaviour-preserving edits of the special functions ---
+# locals of the log-domain recurrence renamed (loop twins are paired by order of first assignment, not by name)
+rename_in_func('special/besselLog.go', r'func bessel_ik_log\(', 'prev', 'Kprev')
+rename_in_func('special/besselLog.go', r'func bessel_ik_log\(', 'scale', 'logScale')
+rename_in_func('special/besselLog.go', r'func CF1_ik_log\(', 'delta', 'ldelta')
+rename_in_func('special/bessel.go', r'func bessel_i_imp\(', 'v', 'order')
+# the asymptotic log expansion written with the factors regrouped
+sub('special/besselLog.go','''  return x + math.Log(s) - 0.5*math.Log(2.0 * x * math.Pi)''','''  return math.Log(s) + (x - 0.5*(math.Log(2.0 * math.Pi) + math.Log(x)))''')
+# LogAdd with the roles of the operands spelled out instead of swapped
+sub('logarithmetic/logarithmetic.go','''  if a > b {
+    // swap
+    a, b = b, a
+  }
+  if math.IsInf(a, -1) {
+    return b
+  }
+  return b + math.Log1p(math.Exp(a-b))''','''  lo, hi := a, b
+  if a > b {
+    lo, hi = b, a
+  }
+  if math.IsInf(lo, -1) {
+    return hi
+  }
+  return hi + math.Log1p(math.Exp(lo-hi))''')
+# a named constant truncated to 20 digits (same float64)
+sub('special/constants.go','const M_SQRTPI      = 1.77245385090551602729816748334','const M_SQRTPI      = 1.7724538509055160273')
+# the series coefficient table with one entry changed below float64 resolution of its contribution
+sub('special/erfc.go','     0.000482040000000000 })','     0.000482040000000001 })')
+# rotation generator: the magnitude test written the other way round
+sub('algorithm/givensRotation/givensRotation.go','    if math.Abs(b.GetFloat64()) > math.Abs(a.GetFloat64()) {','    if math.Abs(a.GetFloat64()) < math.Abs(b.GetFloat64()) {')
+# config accessor: the lookup result held in a differently named local
+sub('statistics/config.go','''  if p, ok := config.GetNamedParameter(name); ok {
+    if v, ok := config.getFloat(p); ok {
+      return NewScalar(t, v), true
+    }
+  }''','''  if entry, found := config.GetNamedParameter(name); found {
+    if v, ok := config.getFloat(entry); ok {
+      return NewScalar(t, v), true
+    }
+  }''')
+# table import: the exact integer parse written with an explicit flag
+sub('vector_dense_int64.go','''      if value, err := strconv.ParseInt(fields[i], 10, 64); err == nil && value != 0 {
+        *v = append(*v, int64(value))
+        continue
+      }''','''      exact, err := strconv.ParseInt(fields[i], 10, 64)
+      if err == nil && exact != 0 {
+        *v = append(*v, int64(exact))
+        continue
+      }''')
